@@ -72,6 +72,15 @@ def instances(tier, rng):
                 r = C.base(u, "MinErrorFlow", "node")
                 r["wt"] = "int"
                 node_insts.append(r)
+            if rng.random() < 0.6:       # node mode with a zero-scaled / half-scaled / ignored NODE: named by the caller as a node,
+                r = C.base(u, "MinErrorFlow", "node")      # meant by the model as that node's edge of the expansion
+                r["wt"] = "int"
+                # weights pushed off a flow at the chosen node, so that ignoring it (or not) changes the optimum
+                v = rng.choice(u["nodes"])
+                r["nw"] = list(r["nw"])
+                r["nw"][u["nodes"].index(v)] += rng.choice([2, 3, 5])
+                r.update(rng.choice([{"escale": [[v, 0, 1]]}, {"escale": [[v, 0, 1]]}, {"escale": [[v, 1, 2]]}, {"ign": [v]}]))
+                node_insts.append(r)
             if rng.random() < 0.5:       # node mode with declared starts / ends: translated through the expansion
                 r = C.base(u, "MinErrorFlow", "node")
                 r["wt"] = "int"
@@ -104,6 +113,8 @@ def run(tier, seed):
             tw["starts"] = xr["starts"]
         if xr["ends"]:
             tw["ends"] = xr["ends"]
+        if xr.get("escale"):
+            tw["escale"] = [[list(t[0]), t[1], t[2]] for t in xr["escale"]]
         edge_twins.append(tw)
     recs = P.drive(insts + groups + node_insts + edge_twins)
     for r in recs:
